@@ -4,7 +4,7 @@ from __future__ import annotations
 import ast
 
 from ..annot import AnnotateModel
-from ..core import Ctx, assigned_names, dotted, norm, stmts_local, walk_local
+from ..core import names_in,  Ctx, assigned_names, dotted, norm, stmts_local, walk_local
 from ..paths import enumerate_paths
 
 
@@ -46,6 +46,16 @@ def run_c09(ctx: Ctx, M: AnnotateModel):
         for p in enumerate_paths(pre):
             switched = any(ev[0] == "stmt" and isinstance(ev[1], ast.Assign) and norm(ev[1].targets[0]) == T and norm(ev[1].value) == SRC for ev in p.events)
             if p.exit == "raise":
+                continue
+            if p.exit == "return":
+                # leaving before the loop is sound only when there is nothing to annotate and the target text itself is returned
+                it_names = names_in(M.LOOP.iter)
+                conds_r = [(norm(ev[1]), ev[2]) for ev in p.events if ev[0] == "cond"]
+                nothing = any((t in it_names and not o) or (t.startswith("len(") and t[4:-1] in it_names and not o) for t, o in conds_r)
+                rv = p.exit_node.value
+                target = rv is not None and norm(rv) in (f"{SRC} or {T}", f"{SRC} if {SRC} else {T}", f"{T} if not {SRC} else {SRC}")
+                if not (nothing and target):
+                    okT, whyT = False, f"an early exit before the loop returns `{norm(rv) if rv is not None else None}` under {conds_r}: it must be the target text, and only when there is nothing to annotate"
                 continue
             if switched:
                 n_sw += 1
